@@ -34,5 +34,7 @@ func EdgeDocs() [][]byte {
 			edgeDocs = append(edgeDocs, []byte(d), []byte(d+"\n"), []byte(strings.ReplaceAll(d, "\n", "\r\n")), []byte(strings.ReplaceAll(d, "\n", "\r")+"\r"))
 		}
 	}
+	// every construct cut after every byte, in every context
+	edgeDocs = append(edgeDocs, TruncDocs()...)
 	return edgeDocs
 }
